@@ -6,8 +6,8 @@ import itertools
 PLAIN = ["a", "b", "c", "d", "x", "y", "z", "m"]
 # adversarial component names: siblings that are string prefixes / substrings of each other,
 # and characters legal in directory names but special in regexes
-ADVERSARIAL = ["a", "ab", "a_b", "aa", "b", "ba", "a1", "a+b", "a(b", "b$", "a-b", "c[d", "__init__", "py", "spy"]
-IDENT_ADVERSARIAL = ["a", "ab", "a_b", "aa", "b", "ba", "a1", "abc", "b_a", "__init__", "py", "spy"]
+ADVERSARIAL = ["a", "ab", "a_b", "aa", "b", "ba", "a1", "a+b", "a(b", "b$", "a-b", "c[d", "__init__", "py", "spy", "Ab", "AB"]
+IDENT_ADVERSARIAL = ["a", "ab", "a_b", "aa", "b", "ba", "a1", "abc", "b_a", "__init__", "py", "spy", "Ab", "AB"]
 
 
 def is_desc(x: str, a: str) -> bool:
